@@ -38,8 +38,8 @@ def tokenize(text):
         p.leading_blank = line.startswith(' ')
         p.lead = ''
         if p.leading_blank:
-            p.lead = line[:len(line) - len(line.lstrip())]
-            line = line.lstrip()
+            p.lead = line[:len(line) - len(line.lstrip(' '))]      # blanks only: tabs, FS/GS/RS/US ... are data or delimiters
+            line = line.lstrip(' ')
         p.blank_only = (line == '')
         p.trailing_sep = (not p.blank_only) and line[-1] == ele_t
         fields = line.split(ele_t)
